@@ -238,6 +238,11 @@ func (n *Net) Mark2(kind, target string, status int, note string) int {
 	return n.log(Event{Kind: kind, Target: target, Status: status, Note: note})
 }
 
+// MarkRef logs a harness event that refers to an earlier one (ref, carried in Conn).
+func (n *Net) MarkRef(kind, target string, status int, note string, ref int) int {
+	return n.log(Event{Kind: kind, Target: target, Status: status, Note: note, Conn: ref})
+}
+
 func (n *Net) Events() []Event {
 	n.mu.Lock()
 	defer n.mu.Unlock()
